@@ -65,3 +65,32 @@ Theorem C18_bdf_counts :
     njev (Bdf.r_stats r) = N.of_nat (length (Bdf.r_jaclog r)).
 Proof. exact @BdfCounters.solve_counted. Qed.
 Print Assumptions C18_bdf_counts.
+
+(* ---- nstep is at least naccpt (+ nrejct): Radau, BDF (whole low-level solver), RK23 (the loop) ----
+   Every attempt counted by nstep ends in at most one acceptance or one counted rejection.  Any number type, kernel,
+   right-hand side, Jacobian, mass matrix, callback (proofs/{Radau,Bdf,Rk23}AccSteps.v). *)
+Require IVP.proofs.RadauAccSteps IVP.proofs.BdfAccSteps IVP.proofs.Rk23AccSteps.
+Theorem C18_radau_nstep_bounds_naccpt :
+  forall (F : Type) (O : Ops F) (H : Type) (P : Radau.params) f jacf mass x0 y0 xend rtol atol
+         (cb : H -> F -> F -> list F -> option (list F * F * F) -> H * flag F * list F) cb0 fuel r,
+    Radau.solve O P f jacf mass x0 y0 xend rtol atol cb cb0 fuel = Some r ->
+    (naccpt (Radau.r_stats r) + nrejct (Radau.r_stats r) <= nstep (Radau.r_stats r))%N.
+Proof. intros; eapply RadauAccSteps.solve_le; eauto. Qed.
+Print Assumptions C18_radau_nstep_bounds_naccpt.
+
+Theorem C18_bdf_nstep_bounds_naccpt :
+  forall (F : Type) (O : Ops F) (H : Type) (P : Bdf.params) f jacf x0 y0 xend rtol atol
+         (cb : H -> F -> F -> list F -> option (list F * F * F) -> H * flag F * list F) cb0 fuel r,
+    Bdf.solve O P f jacf x0 y0 xend rtol atol cb cb0 fuel = Some r ->
+    (naccpt (Bdf.r_stats r) + nrejct (Bdf.r_stats r) <= nstep (Bdf.r_stats r))%N.
+Proof. intros; eapply BdfAccSteps.solve_le; eauto. Qed.
+Print Assumptions C18_bdf_nstep_bounds_naccpt.
+
+Theorem C18_rk23_nstep_bounds_naccpt :
+  forall (F : Type) (O : Ops F) (H : Type) (P : Rk23.params) f xend posneg hmax
+         (cb : H -> F -> F -> list F -> option (list F * F * F) -> H * flag F * list F) kern fuel s r,
+    (naccpt (Rk23.s_stats s) <= nstep (Rk23.s_stats s))%N ->
+    Rk23.loop O P f xend posneg hmax cb kern fuel s = Some r ->
+    (naccpt (Rk23.r_stats r) <= nstep (Rk23.r_stats r))%N.
+Proof. intros; eapply Rk23AccSteps.loop_le; eauto. Qed.
+Print Assumptions C18_rk23_nstep_bounds_naccpt.
